@@ -129,6 +129,10 @@ class State:
             return V(kind, z3.simplify(ACCESSOR[kind](e)), path=path)
         v = vany(e, path=path)
         v.maybe_none = (name in self.ctx.optional_fields)
+        if name in getattr(self.ctx, 'objref_fields', ()):
+            # contract-declared typing: the field holds None or a pre-existing object (instantiated per read)
+            self.ctx.assumptions.add(f'field typing: .{name} holds None or an object that existed before the call')
+            self.assume(z3.Or(Val.is_none(e), z3.And(Val.is_ref(e), Val.oid(e) > 0, Val.oid(e) < FRESH_BASE)))
         return v
 
     def write_field(self, obj: V, name: str, val: V):
